@@ -27,10 +27,11 @@
 #define VS_BAD 1
 
 _Bool nondet_bool(void);
+extern int vs_any_lost;
 
 struct vs_tok { uint8_t kind; int64_t v; };          /* kind 0 = CHAR, 1 = INT */
 struct vs_buf { struct vs_tok t[VS_CAP]; int n; int format_error; int overflow; };
-struct vs_state { struct vs_buf *buf; int rpos; int sink; int faulty; int lost; int writes; int flushed; int closed; int is_open; };
+struct vs_state { struct vs_buf *buf; int rpos; int sink; int faulty; int lost; int writes; int flushed; int closed; int is_open; int dirty; };
 struct vs_ctype { uint8_t pad[56]; uint8_t widen_ok; uint8_t widen[256]; uint8_t narrow_ok; };
 /* mirror of std::basic_ios<char> (264 bytes): state word at +32, _M_streambuf at +232, _M_ctype at +240 */
 struct vs_ios { uint8_t pad0[32]; uint32_t state; uint8_t pad1[196]; struct vs_state *st; struct vs_ctype *ctype; uint8_t pad2[16]; };
@@ -44,7 +45,7 @@ static struct vs_ctype vs_the_ctype = { {0}, 1, { R16(0), R16(16), R16(32), R16(
   R16(128), R16(144), R16(160), R16(176), R16(192), R16(208), R16(224), R16(240) }, 0 };
 
 /* static pools: streams are created in a concrete order, so every index below is a constant for the solver */
-#define VS_NOBJ 8
+#define VS_NOBJ 16
 #define VS_NBUF 6
 static struct vs_obj vs_objs[VS_NOBJ];
 static struct vs_state vs_states[VS_NOBJ + 3];
@@ -52,8 +53,13 @@ static struct vs_buf vs_bufs[VS_NBUF];
 static int vs_nobj, vs_nstate, vs_nbuf;
 
 static struct vs_ios *vs_ios(void *obj) {
-  if (*(void **)obj == (void *)&vs_vtable8[3]) return &((struct vs_obj8 *)obj)->ios;
-  return &((struct vs_obj *)obj)->ios;
+  void *vp = *(void **)obj;
+  if (vp == (void *)&vs_vtable8[3]) return &((struct vs_obj8 *)obj)->ios;
+  if (vp == (void *)&vs_vtable[3]) return &((struct vs_obj *)obj)->ios;
+  /* compiler-laid-out stream object (std::ofstream, std::ostringstream ... on the stack of real code): the
+     virtual-base offset is in slot -3 of the real vtable symbol, which __ll2c_global_ctors fills in */
+  int64_t off = (int64_t)__CPROVER_POINTER_OFFSET(((uint8_t **)vp)[-3]);
+  return (struct vs_ios *)((uint8_t *)obj + off);
 }
 static struct vs_state *vs_st(void *obj) { return vs_ios(obj)->st; }
 static uint32_t vs_getstate(void *obj) { return vs_ios(obj)->state; }
@@ -68,7 +74,7 @@ static struct vs_buf *vs_new_buf(void) {
 static struct vs_state *vs_new_state(struct vs_buf *b) {
   __CPROVER_assert(vs_nstate < VS_NOBJ + 3, "model: too many streams");
   struct vs_state *st = &vs_states[vs_nstate++];
-  st->buf = b; st->rpos = 0; st->sink = 0; st->faulty = 0; st->lost = 0; st->writes = 0; st->flushed = 0; st->closed = 0; st->is_open = 1;
+  st->buf = b; st->rpos = 0; st->sink = 0; st->faulty = 0; st->lost = 0; st->writes = 0; st->flushed = 0; st->closed = 0; st->is_open = 1; st->dirty = 0;
   return st;
 }
 static struct vs_obj *vs_new_obj(struct vs_buf *b) {
@@ -131,9 +137,10 @@ static _Bool vs_is_numch(int64_t c) { return (c >= '0' && c <= '9') || c == '-' 
 static void vs_put_tok(void *o, uint8_t kind, int64_t v) {
   struct vs_ios *ios = vs_ios(o);
   struct vs_state *s = ios->st;
-  if (ios->state & (VS_BAD | VS_FAIL)) { s->lost = 1; return; }   /* insertion on a failed stream is dropped */
-  if (s->faulty && nondet_bool()) { ios->state |= VS_BAD; s->lost = 1; return; }
+  if (ios->state & (VS_BAD | VS_FAIL)) { s->lost = 1; if (s->faulty) vs_any_lost = 1; return; }   /* insertion on a failed stream is dropped */
+  if (s->faulty && nondet_bool()) { ios->state |= VS_BAD; s->lost = 1; vs_any_lost = 1; return; }
   s->writes++;
+  s->dirty = 1;
   if (s->sink) return;
   struct vs_buf *b = s->buf;
   int n = b->n;
@@ -163,6 +170,14 @@ void *_ZNSo9_M_insertIeEERSoT_(void *o, long double v) { vs_put_tok(o, 1, 0); re
 void *_ZNSo3putEc(void *o, uint8_t c) { vs_put_tok(o, 0, c); return o; }
 void *_ZSt16__ostream_insertIcSt11char_traitsIcEERSt13basic_ostreamIT_T0_ES6_PKS3_l(void *o, void *s, uint64_t n) {
   const uint8_t *p = s;
+  { /* fast path, same effect as the loop below: a fault-free sink (or an already failed fault-free stream) takes the whole run at once */
+    struct vs_ios *ios = vs_ios(o);
+    struct vs_state *st = ios->st;
+    if (n > 0 && !st->faulty) {
+      if (ios->state & (VS_BAD | VS_FAIL)) { st->lost = 1; return o; }
+      if (st->sink) { st->writes += (int)n; st->dirty = 1; return o; }
+    }
+  }
   for (uint64_t i = 0; i < n; i++) vs_put_tok(o, 0, p[i]);
   return o;
 }
@@ -186,7 +201,8 @@ void *_ZNSo5writeEPKcl(void *o, void *s, uint64_t n) {
 }
 void *_ZNSo5flushEv(void *o) {
   struct vs_state *s = vs_st(o);
-  if (s->faulty && nondet_bool()) { vs_setstate(o, VS_BAD); s->lost = 1; }
+  if (s->faulty && s->dirty && nondet_bool()) { vs_setstate(o, VS_BAD); s->lost = 1; vs_any_lost = 1; }
+  else s->dirty = 0;
   s->flushed = 1;
   return o;
 }
@@ -281,3 +297,105 @@ void *_ZNSirsERi(void *i, void *p) { int64_t v = 0; vs_read_int(i, &v, -21474836
 void *_ZNSirsERj(void *i, void *p) { int64_t v = 0; vs_read_int(i, &v, 0, 4294967295LL); *(uint32_t *)p = (uint32_t)v; return i; }
 void *_ZNSi10_M_extractIlEERSiRT_(void *i, void *p) { int64_t v = 0; vs_read_int(i, &v, INT64_MIN, INT64_MAX); *(int64_t *)p = v; return i; }
 void *_ZNSi10_M_extractImEERSiRT_(void *i, void *p) { int64_t v = 0; vs_read_int(i, &v, 0, INT64_MAX); *(int64_t *)p = v; return i; }
+
+
+/* ---- compiler-laid-out file and string streams (std::ofstream / std::ifstream / std::ostringstream objects that
+ * real code constructs itself).  Their constructors are header-inlined: they call ios_base(), basic_ios::init(),
+ * basic_filebuf(), locale() and store vptrs taken from the real vtable symbols; __ll2c_global_ctors stores the
+ * virtual-base offsets into those symbols (ofstream 248, ifstream 256, ostringstream 112, istringstream 120).
+ *
+ * Fault model (C19): when vs_fault_mode is set, filebuf::open may fail, and every insertion, flush and close of a
+ * file stream may fail (badbit / null return).  vs_any_lost records that some requested output lost data:
+ * open failed, an insertion failed, or buffered data could not be written at flush/close (explicit or in the
+ * destructor). */
+int vs_fault_mode;
+int vs_any_lost;
+int vs_open_calls;
+int vs_open_ok;
+uint32_t vs_get_open_ok(void) { return vs_open_ok; }
+void vs_set_fault_mode(uint32_t m) { vs_fault_mode = m; }
+uint32_t vs_get_any_lost(void) { return vs_any_lost; }
+
+void _ZNSt8ios_baseC2Ev(void *ios) { }
+void _ZNSt8ios_baseD2Ev(void *ios) { }
+void _ZNSt6localeC1Ev(void *l) { }
+void _ZNSt6localeD1Ev(void *l) { }
+void _ZNSt13basic_filebufIcSt11char_traitsIcEEC1Ev(void *fb) { }
+void _ZNSt12__basic_fileIcED1Ev(void *f) { }
+void _ZNSt9basic_iosIcSt11char_traitsIcEE4initEPSt15basic_streambufIcS1_E(void *iosv, void *sb) {
+  struct vs_ios *ios = iosv;
+  struct vs_state *st = vs_new_state(0);
+  st->sink = 1;              /* contents of compiler-laid-out streams are not recorded, only the write/fault history */
+  ios->state = sb ? 0 : VS_BAD;
+  ios->st = st;
+  ios->ctype = &vs_the_ctype;
+}
+/* filebuf lives 240 bytes before the basic_ios subobject in both std::ofstream (8/248) and std::ifstream (16/256) */
+void *_ZNSt13basic_filebufIcSt11char_traitsIcEE4openEPKcSt13_Ios_Openmode(void *fb, void *name, uint32_t mode) {
+  struct vs_ios *ios = (struct vs_ios *)((uint8_t *)fb + 240);
+  struct vs_state *st = ios->st;
+  vs_open_calls++;
+  if (vs_fault_mode) {
+    st->faulty = 1;
+    if (nondet_bool()) { st->is_open = 0; if (mode & 16) vs_any_lost = 1; return 0; }   /* ios_base::out == 16 */
+  }
+  st->is_open = 1;
+  st->closed = 0;
+  if (mode & 16) vs_open_ok++;
+  return fb;
+}
+void *_ZNSt13basic_filebufIcSt11char_traitsIcEE5closeEv(void *fb) {
+  struct vs_ios *ios = (struct vs_ios *)((uint8_t *)fb + 240);
+  struct vs_state *st = ios->st;
+  if (!st->is_open) return 0;
+  st->is_open = 0;
+  st->closed = 1;
+  if (st->faulty && st->dirty && nondet_bool()) { vs_any_lost = 1; st->lost = 1; return 0; }
+  st->dirty = 0;
+  return fb;
+}
+
+
+/* ---- std::ostringstream as an opaque object ---------------------------------------------------------------------
+ * For TUs compiled with -fno-inline (tuflags) the constructor, destructor and str() of std::ostringstream are
+ * calls to the explicit instantiations in libstdc++, modelled here: the object is {vptr, stringbuf[104],
+ * basic_ios} with virtual-base offset 112 (typed model vtable, so the offset constant-propagates), insertions
+ * record tokens as for every other stream, and str() renders them: CHAR tokens as bytes, INT tokens in decimal
+ * (only values in [0, 99999] are inside the model).  The result must fit the small-string buffer (15 bytes).
+ * String streams are stack objects: the destructor gives the state and buffer back when they are the newest. */
+static int64_t vs_vtable112[8] = {112, 0, 0, 0, 0, 0, 0, 0};
+void _ZNSt7__cxx1119basic_ostringstreamIcSt11char_traitsIcESaIcEEC1Ev(void *o) {
+  struct vs_ios *ios = (struct vs_ios *)((uint8_t *)o + 112);
+  *(void **)o = &vs_vtable112[3];
+  ios->state = 0;
+  ios->st = vs_new_state(vs_new_buf());
+  ios->ctype = &vs_the_ctype;
+}
+void _ZNSt7__cxx1119basic_ostringstreamIcSt11char_traitsIcESaIcEED1Ev(void *o) {
+  struct vs_state *st = ((struct vs_ios *)((uint8_t *)o + 112))->st;
+  if (vs_nstate > 0 && st == &vs_states[vs_nstate - 1]) {
+    if (vs_nbuf > 0 && st->buf == &vs_bufs[vs_nbuf - 1]) vs_nbuf--;
+    vs_nstate--;
+  }
+}
+void _ZNKSt7__cxx1119basic_ostringstreamIcSt11char_traitsIcESaIcEE3strEv(void *ret, void *o) {
+  struct vs_string *r = ret;
+  struct vs_buf *b = ((struct vs_ios *)((uint8_t *)o + 112))->st->buf;
+  uint64_t n = 0;
+  r->p = r->buf;
+  for (int i = 0; i < VS_CAP; i++) {
+    if (i >= b->n) break;
+    int64_t v = b->t[i].v;
+    if (b->t[i].kind == 0) { if (n < 15) r->buf[n] = (uint8_t)v; n++; continue; }
+    if (v < 0 || v > 99999) { __CPROVER_assert(0, "model: integer written to a string stream is outside [0, 99999]"); __CPROVER_assume(0); }
+    if (v >= 10000) { if (n < 15) r->buf[n] = (uint8_t)('0' + v / 10000); n++; }
+    if (v >= 1000) { if (n < 15) r->buf[n] = (uint8_t)('0' + v / 1000 % 10); n++; }
+    if (v >= 100) { if (n < 15) r->buf[n] = (uint8_t)('0' + v / 100 % 10); n++; }
+    if (v >= 10) { if (n < 15) r->buf[n] = (uint8_t)('0' + v / 10 % 10); n++; }
+    if (n < 15) r->buf[n] = (uint8_t)('0' + v % 10);
+    n++;
+  }
+  if (n > 15) { __CPROVER_assert(0, "model: ostringstream::str() longer than 15 bytes"); __CPROVER_assume(0); }
+  r->buf[n] = 0;
+  r->len = n;
+}
